@@ -156,7 +156,17 @@ def check_intersect_plane(run, rule='R23'):
                 continue
             ev.env[nm] = ev.ev(canon(fi, st.value, inline=False))
         rv = canon(fi, ret.value, inline=False)
-        if not (isinstance(rv, ast.Call) and len(rv.args) == 2):
+        if isinstance(rv, ast.Call) and rv.keywords and isinstance(rv.func, ast.Call) and len(rv.func.args) == 2 and \
+                isinstance(rv.func.args[1], ast.Constant) and isinstance(rv.func.args[1].value, str):
+            # <namedtuple>(p=.., lam=..): bind the keywords to the declared field order
+            fields = rv.func.args[1].value.replace(',', ' ').split()
+            byname = {k.arg: k.value for k in rv.keywords if k.arg}
+            pos = list(rv.args)
+            while len(pos) < len(fields) and fields[len(pos)] in byname:
+                pos.append(byname.pop(fields[len(pos)]))
+            if not byname:
+                rv = ast.Call(func=rv.func, args=pos, keywords=[])
+        if not (isinstance(rv, ast.Call) and len(rv.args) == 2 and not rv.keywords):
             run.error('R23: intersect_plane: return is not <namedtuple>(p, lam): %s' % src(ret.value, 50))
             return
         p, lam = ev.ev(rv.args[0]), ev.ev(rv.args[1])
